@@ -37,7 +37,7 @@ func zzCycle(kind int, p *zzPayload) {
 		defer func() {
 			_, _ = r.ReadI64() // over-read at the end of the input, then release
 			_ = br.Release(nil)
-			zzAssert(!zzIsFreed(in), "an instance's input was recycled into the shared pool")
+			zzAssertLive(in, "an instance's input was recycled into the shared pool")
 		}()
 		v, err := r.ReadI64()
 		zzAssert(zzAnd(err == nil, v == p.v), "BufferReader saw another instance's data")
